@@ -69,7 +69,10 @@ def rule_M2(ctx, R):
                 continue
             raws = p.ev("RAW")
             hls = p.ev("ACQ", "TRY", "REL")
-            killed = any(e["k"] == "FLAG_READ" and e.get("outcome") is True for e in p.events)
+            first = min([e["i"] for e in raws + hls] or [len(p.events)])
+            # only acquisitions are refused on a killed lock, and only by a test made before the raw operation; a release must
+            # reach the raw lock whatever the flag says (killing "does not affect anything currently holding the lock")
+            killed = want[0] != "REL" and any(e["k"] == "FLAG_READ" and e.get("outcome") is True and e["i"] < first for e in p.events)
             if killed:
                 if raws or hls:
                     bad = "raw operation performed although the lock is killed"
